@@ -197,6 +197,60 @@ pub fn run() {
                 };
                 format!("enc={e} dec={d}")
             }
+            // framelen2 <max> <hn> <bn>: request and response whose header frame has exactly hn bytes
+            // (hn >= 27) and whose body has bn bytes, under limit <max>, in both directions; the
+            // receiving side is fed bytes produced by a writer with the largest possible limit.
+            "framelen2" => {
+                let cfg = config(t[1]);
+                let hn: usize = t[2].parse().unwrap();
+                let bn: usize = t[3].parse().unwrap();
+                assert!(hn >= 27);
+                let mut wcfg = Config::default();
+                wcfg.max_frame_size = Some(u32::MAX as usize);
+                let mk_req = || {
+                    Request::new(Bytes::from(vec![7u8; bn])).with_route("a".repeat(hn - 16))
+                };
+                let mk_resp = || {
+                    Response::new(Bytes::from(vec![7u8; bn]))
+                        .with_status(StatusCode::NotFound)
+                        .with_header("k", "v".repeat(hn - 27))
+                };
+                let f = |r: &anyhow::Result<bool>| match r {
+                    Ok(true) => "OK".to_string(),
+                    Ok(false) => "OK!content".to_string(),
+                    Err(e) => format!("ERR:{}", classify(e)),
+                };
+                let wreq = rt
+                    .block_on(verif::write_request(&wcfg, Vec::new(), mk_req()))
+                    .expect("unlimited writer");
+                let wresp = rt
+                    .block_on(verif::write_response(&wcfg, Vec::new(), mk_resp()))
+                    .expect("unlimited writer");
+                let e1 = rt
+                    .block_on(verif::write_request(&cfg, Vec::new(), mk_req()))
+                    .map(|b| b == wreq);
+                let d1 = rt.block_on(verif::read_request(&cfg, &wreq[..])).map(|r| {
+                    r.body().len() == bn
+                        && r.body().iter().all(|b| *b == 7)
+                        && r.route().len() == hn - 16
+                });
+                let e2 = rt
+                    .block_on(verif::write_response(&cfg, Vec::new(), mk_resp()))
+                    .map(|b| b == wresp);
+                let d2 = rt.block_on(verif::read_response(&cfg, &wresp[..])).map(|r| {
+                    r.body().len() == bn
+                        && r.body().iter().all(|b| *b == 7)
+                        && r.headers().get("k").map(|v| v.len()) == Some(hn - 27)
+                        && r.status() == StatusCode::NotFound
+                });
+                format!(
+                    "req enc={} dec={} resp enc={} dec={}",
+                    f(&e1),
+                    f(&d1),
+                    f(&e2),
+                    f(&d2)
+                )
+            }
             // version <u16>
             "version" => match Version::new(t[1].parse().unwrap()) {
                 Ok(v) => format!("OK {}", v.to_u16()),
